@@ -51,6 +51,7 @@ type HarnessOut struct {
 	Truncated    bool                     `json:"truncated"`
 	CrossChecked int                      `json:"cross_checked"`
 	CrossDiff    int                      `json:"cross_diff"`
+	CacheHits    int                      `json:"query_cache_hits"`
 }
 
 func main() {
@@ -70,6 +71,7 @@ func main() {
 	cross := flag.Int("cross", 0, "re-decide every k-th assertion query with cvc5 (0 = off)")
 	tags := flag.String("tags", "verif", "build tags")
 	paramsFlag := flag.String("params", "", "comma separated name=int harness parameters (vrt.Param)")
+	withTests := flag.Bool("tests", false, "load test files too (harnesses in _test packages)")
 	verbose := flag.Bool("v", false, "verbose")
 	flag.Parse()
 
@@ -100,7 +102,7 @@ func main() {
 			ov[virt] = c
 		}
 	}
-	cfg := &packages.Config{Mode: packages.LoadAllSyntax, Dir: *repo, Overlay: ov, BuildFlags: []string{"-tags=" + *tags},
+	cfg := &packages.Config{Mode: packages.LoadAllSyntax, Dir: *repo, Overlay: ov, Tests: *withTests, BuildFlags: []string{"-tags=" + *tags},
 		Env: append(os.Environ(), "GOFLAGS=-mod=mod", "GOPROXY=off", "GOSUMDB=off", "GOTOOLCHAIN=local")}
 	pkgs, err := packages.Load(cfg, strings.Split(*pkgsFlag, ",")...)
 	if err != nil {
@@ -146,7 +148,7 @@ func main() {
 			Asserts: res.Asserts, AssertsSym: res.AssertsSym, Queries: res.Queries, Sat: res.Sat, Unsat: res.Unsat, Unknown: res.Unknown,
 			SolverErrors: res.SolverErrors, SolverS: res.SolverDur.Seconds(), WallS: res.Wall.Seconds(), Instrs: res.Instrs,
 			Violations: res.Violations, ViolCount: res.ViolCount, Inconclusive: res.Inconclusive, Covers: res.Covers, Samples: res.Samples,
-			MapRanges: res.MapRanges, UnknownBr: res.UnknownBr, Truncated: res.Truncated, CrossChecked: res.CrossChecked, CrossDiff: res.CrossDiff}
+			MapRanges: res.MapRanges, UnknownBr: res.UnknownBr, Truncated: res.Truncated, CrossChecked: res.CrossChecked, CrossDiff: res.CrossDiff, CacheHits: res.CacheHits}
 		for f := range res.Funcs {
 			ho.Funcs = append(ho.Funcs, f)
 		}
@@ -156,8 +158,8 @@ func main() {
 		}
 		outs = append(outs, ho)
 		if *verbose {
-			fmt.Fprintf(os.Stderr, "== %s paths=%d completed=%d assume-dropped=%d violations=%d inconclusive=%d asserts=%d queries=%d (sat %d unsat %d unknown %d) solver=%.2fs wall=%.2fs instrs=%d\n",
-				hs, res.Paths, res.Completed, res.Assumed, len(res.Violations), len(res.Inconclusive), res.Asserts, res.Queries, res.Sat, res.Unsat, res.Unknown, res.SolverDur.Seconds(), res.Wall.Seconds(), res.Instrs)
+			fmt.Fprintf(os.Stderr, "== %s paths=%d completed=%d assume-dropped=%d violations=%d inconclusive=%d asserts=%d queries=%d (sat %d unsat %d unknown %d) solver=%.2fs wall=%.2fs instrs=%d cachehits=%d\n",
+				hs, res.Paths, res.Completed, res.Assumed, len(res.Violations), len(res.Inconclusive), res.Asserts, res.Queries, res.Sat, res.Unsat, res.Unknown, res.SolverDur.Seconds(), res.Wall.Seconds(), res.Instrs, res.CacheHits)
 			for k, n := range res.ViolCount {
 				fmt.Fprintf(os.Stderr, "   VIOL %s x%d\n", k, n)
 			}
